@@ -1811,6 +1811,8 @@ class Engine:
                     return False
                 return SBool(z3.simplify(z3.Or(*conds)))
             return self.hashable(x) in c.d
+        if isinstance(c, Sym) and isinstance(x, (str, SStr)) and self.tag_of(path, c) == "StrV":
+            c = self.as_sstr(path, c)           # substring test on a value known to be a string
         if isinstance(c, (str, SStr)) and isinstance(x, (str, SStr)):
             if isinstance(c, str) and isinstance(x, str):
                 return x in c
